@@ -658,6 +658,9 @@ RoundTripInv(s) == Done(s) /\ s.damage = "none" /\ s.origin # "hostile" /\ s.pla
 StreamInv(s) == s.phase # "idle" /\ s.damage = "none" /\ s.origin \in {"library", "spec"}
                 /\ s.codec \in SpecifiedCodecs /\ s.stored.full /\ s.plain.full
                      => LET d == BlockDenotes(s.codec, s.stored.bytes) IN d.ok /\ d.out = s.plain.bytes
+(* the null codec stores the data as they are (also decidable on digests) *)
+NullInv(s) == s.phase # "idle" /\ s.damage = "none" /\ s.origin = "library" /\ s.codec = "null"
+                     => DataEq(s.stored, s.plain)
 (* ... and for the others the reference decompressor accepts it and reads x *)
 ReferenceInv(s) == s.phase # "idle" /\ s.damage = "none" /\ s.origin = "library" /\ s.ref.avail
                      => s.ref.ok /\ DataEq(s.ref.out, s.plain)
